@@ -459,6 +459,30 @@ def run(ctx):
                     okord = True
         ctx.check(okord, 'C18.R8', 'PolicyDirectoryMonitor.scan_policies|restore-after-disassociate@%s' % short(rc_, 40), '%s:%s PolicyDirectoryMonitor.scan_policies' % (MONITOR, rc_.lineno),
                   'the file is disassociated from the name before the name is restored', 'restore_or_delete_policy runs before (or without) the disassociation of the file that stopped defining the name: the entry popped from the shadow stack can be that file\'s own stale definition')
+    # ---------------- R9 a reloaded file gives up the shadowed definitions it no longer provides
+    ctx.rule('C18.R9', 'where scan_policies reloads a modified file, the file is disassociated from every name of the shadow cache that its new content does not define (not only from the names it currently owns): a file shadowed for a name keeps an entry on that name\'s stack, and if it stops defining the name that entry must go, or removing the shadowing file later restores the name from a file that no longer defines it')
+    rcs = [(n, c) for n, c in call_nodes(sg, 'operation_policy.read_policy_from_file')] or [(n, c) for n, c in call_nodes(sg, '.read_policy_from_file')]
+    okr9 = False
+    if len(rcs) == 1:
+        rn9, rc9 = rcs[0]
+        newv = rn9.stmt.targets[0].id if isinstance(rn9.stmt, ast.Assign) and isinstance(rn9.stmt.targets[0], ast.Name) else None
+        fvar = U(rc9.args[0]) if rc9.args else None
+        for dn_, dc_ in dcalls:
+            if not (sg.dominates(rn9, dn_) and dn_.loops and len(dc_.args) == 2 and U(dc_.args[1]) == fvar):
+                continue
+            lp = dn_.loops[-1]
+            if not (isinstance(lp, ast.For) and isinstance(lp.target, ast.Name) and U(dc_.args[0]) == lp.target.id):
+                continue
+            it = lp.iter
+            txt = U(it)
+            all_cache_minus_new = isinstance(it, ast.BinOp) and isinstance(it.op, ast.Sub) and 'policy_cache' in U(it.left) and newv is not None and newv in U(it.right)
+            guarded_all = 'policy_cache' in txt and any(isinstance(t_.stmt, ast.Compare) and isinstance(t_.stmt.ops[0], ast.NotIn) and U(t_.stmt.left) == lp.target.id and newv and newv in U(t_.stmt.comparators[0]) and lab_ == 'T'
+                                                       for t_, lab_ in dominating_edges(sg, dn_))
+            if all_cache_minus_new or guarded_all:
+                okr9 = True
+    ctx.check(okr9, 'C18.R9', 'PolicyDirectoryMonitor.scan_policies|reload-drops-stale-shadow-entries', '%s PolicyDirectoryMonitor.scan_policies' % MONITOR,
+              'after a reload the file is disassociated from every cached name absent from its new content',
+              'a reloaded file is only disassociated from the names it currently owns: a shadowed file that stops defining a name keeps its stale entry on the shadow stack')
     # ---------------- R7 no structure is modified while it is being iterated
     ctx.rule('C18.R7', 'no list or dict of the monitor is structurally modified (remove/pop/insert/append/del) inside a for loop that iterates over that very object: elements are skipped (or the iteration fails), so stale shadow entries survive. Iterating a copy (list(x), x[:], a comprehension) or <DictProxy>.keys() (a list, by the recorded assumption) is fine')
     n_it = 0
